@@ -715,6 +715,7 @@ theorem roundtrip (s : Module) (o : Opts) (h : WellFormed s o) (hA : NoAdpcm s.s
   rw [← map_hdrSmp hslots] at hds
   have key := read_eq_some h1 h2 h3 h4 h5 hmi hH hpc hsum rfl (all_hdrTestOk hslots)
     (any_vol_of_test (all_hdrTestOk hslots))
+    (by show ¬ ((u8 s.orders.length).toNat > 128); rw [u8_toNat]; omega)
     (by rw [hsize]; show ¬ (1084 + s.pats.length * 4 * s.chn * 64 + _ < _); omega)
     (fun hMK => by rw [hsize, hmk hMK]; omega)
     (fun hMK hp => by
